@@ -390,12 +390,17 @@ def childSemi (st : Style) (isLast : Bool) (s : Stmt) : Str :=
 def commentKept (st : Style) (text : Str) : Bool :=
   !(st.isCompressed && !startsWith text (lit "/*!"))
 
+/-- `write_children` (serializer.rs:1032) around the already rendered children. -/
+def blockOut (st : Style) (ind : Nat) (inner : Str) : Str :=
+  openBlock st ++ inner ++ closeBlock st ind
+
 mutual
-/-- `visit_stmt` (serializer.rs:1111): (did_write, bytes written). `ind` = `self.indentation`. -/
+/-- `visit_stmt` (serializer.rs:1111): (did_write, bytes written). `ind` = `self.indentation`.
+    `blockOut st ind (childrenLoop st (ind + 2) body)` is the call `self.write_children(body)`. -/
 def visitStmt (st : Style) (ind : Nat) : Stmt → Bool × Str
   | .rule ge sel body =>
     if (Stmt.rule ge sel body).isInvisible then (false, []) else
-    (true, indentOut st ind ++ selectorOut st sel ++ writeChildren st ind body)
+    (true, indentOut st ind ++ selectorOut st sel ++ blockOut st ind (childrenLoop st (ind + 2) body))
   | .decl name custom v =>
     if v.isBlank then (false, []) else
     (true, indentOut st ind ++ name ++ [':'] ++
@@ -403,27 +408,24 @@ def visitStmt (st : Style) (ind : Nat) : Stmt → Bool × Str
   | .media ge qs body =>
     if (Stmt.media ge qs body).isInvisible then (false, []) else
     (true, indentOut st ind ++ lit "@media " ++ joinWith (',' :: optSp st) (qs.map queryOut) ++
-      writeChildren st ind body)
+      blockOut st ind (childrenLoop st (ind + 2) body))
   | .supports ge params body =>
     if (Stmt.supports ge params body).isInvisible then (false, []) else
     (true, indentOut st ind ++ lit "@supports" ++ (if params.isEmpty then [] else ' ' :: params) ++
-      writeChildren st ind body)
+      blockOut st ind (childrenLoop st (ind + 2) body))
   | .unknown _ name params hasBody body =>
     (true, indentOut st ind ++ '@' :: name ++ (if params.isEmpty then [] else ' ' :: params) ++
       (if !hasBody then []
        else if body.allInvisible then lit " {}"
-       else writeChildren st ind body))
+       else blockOut st ind (childrenLoop st (ind + 2) body)))
   | .kf sels body =>
     if (Stmt.kf sels body).isInvisible then (false, []) else
-    (true, indentOut st ind ++ joinWith (lit ", ") sels ++ writeChildren st ind body)
+    (true, indentOut st ind ++ joinWith (lit ", ") sels ++ blockOut st ind (childrenLoop st (ind + 2) body))
   | .comment text col =>
     if commentKept st text then (true, indentOut st ind ++ commentOut text col) else (true, [])
   | .import url mods =>
     (true, indentOut st ind ++ lit "@import " ++ url ++
       (match mods with | some m => ' ' :: m | none => []))
-/-- `write_children` (serializer.rs:1032). -/
-def writeChildren (st : Style) (ind : Nat) (body : Stmts) : Str :=
-  openBlock st ++ childrenLoop st (ind + 2) body ++ closeBlock st ind
 /-- The two loops of `write_children` (all but the last child, then the last child). -/
 def childrenLoop (st : Style) (ind : Nat) : Stmts → Str
   | .nil => []
@@ -432,6 +434,10 @@ def childrenLoop (st : Style) (ind : Nat) : Stmts → Str
     (if r.1 then r.2 ++ childSemi st (match ss with | .nil => true | _ => false) s ++ optNl st else []) ++
     childrenLoop st ind ss
 end
+
+/-- `write_children` (serializer.rs:1032). -/
+def writeChildren (st : Style) (ind : Nat) (body : Stmts) : Str :=
+  blockOut st ind (childrenLoop st (ind + 2) body)
 
 /-! ## top level -/
 
@@ -486,23 +492,29 @@ def hexVal (c : Char) : Nat :=
   else if 'a' ≤ c && c ≤ 'f' then c.toNat - 87
   else c.toNat - 55
 
-mutual
-def unescapeBody : Str → Str
-  | [] => []
-  | c :: cs =>
+/-- One scanner for both modes, structural on the text: `none` = ordinary text, `some (k, acc)` =
+    inside a numeric escape with value `acc` so far and at most `k` more hex digits. -/
+def unesc : Option (Nat × Nat) → Str → Str
+  | none, [] => []
+  | some (_, acc), [] => [Char.ofNat acc]
+  | none, c :: cs =>
     if c = '\\' then
       match cs with
       | [] => []
-      | d :: ds => if isAsciiHexDigit d then hexRun 5 (hexVal d) ds else d :: unescapeBody ds
-    else c :: unescapeBody cs
-def hexRun : Nat → Nat → Str → Str
-  | _, acc, [] => [Char.ofNat acc]
-  | 0, acc, c :: cs =>
-    Char.ofNat acc :: (if c = ' ' || c = '\t' || c = '\n' then unescapeBody cs else unescapeBody (c :: cs))
-  | k + 1, acc, c :: cs =>
-    if isAsciiHexDigit c then hexRun k (acc * 16 + hexVal c) cs
-    else Char.ofNat acc :: (if c = ' ' || c = '\t' || c = '\n' then unescapeBody cs else unescapeBody (c :: cs))
-end
+      | d :: ds => if isAsciiHexDigit d then unesc (some (5, hexVal d)) ds else d :: unesc none ds
+    else c :: unesc none cs
+  | some (k, acc), c :: cs =>
+    if k ≠ 0 && isAsciiHexDigit c then unesc (some (k - 1, acc * 16 + hexVal c)) cs
+    else Char.ofNat acc ::
+      (if c = ' ' || c = '\t' || c = '\n' then unesc none cs
+       else if c = '\\' then
+         match cs with
+         | [] => []
+         | d :: ds => if isAsciiHexDigit d then unesc (some (5, hexVal d)) ds else d :: unesc none ds
+       else c :: unesc none cs)
+
+def unescapeBody (s : Str) : Str := unesc none s
+def hexRun (k acc : Nat) (s : Str) : Str := unesc (some (k, acc)) s
 
 /-- Strip the surrounding quotes of a quoted token and unescape; `none` if the token is not
     `q … q` with `q` a quote character. -/
@@ -571,14 +583,16 @@ def Atom.ok : Atom → Bool
   | .raw s => neutral (unquotedOut s)
   | .quoted _ => true
 
-def Value.ok : Value → Bool
+/-- A slash-separated list is constrained as a whole (compressed `a/*b` would open a comment). -/
+def Value.ok (st : Style) : Value → Bool
   | .atom a => a.ok
+  | .list .slash items => neutral (Value.out st (.list .slash items))
   | .list _ items => items.all Atom.ok
 
 mutual
 def Stmt.leavesOk (st : Style) : Stmt → Bool
   | .rule _ sel body => neutral (selectorOut st sel) && body.leavesOk st
-  | .decl name _ v => neutral name && v.ok
+  | .decl name _ v => neutral name && v.ok st
   | .media _ qs body => neutral (joinWith (',' :: optSp st) (qs.map queryOut)) && body.leavesOk st
   | .supports _ params body => neutral params && body.leavesOk st
   | .unknown _ name params _ body => neutral name && neutral params && body.leavesOk st
